@@ -234,6 +234,7 @@ fn c09_gen() -> GenCfg {
     g.ty_depth = 3;
     g.max_fields = 4;
     g.max_variants = 4;
+    g.keyword_item_names = true; // `Type`, `Protocol`: Swift escapes them, with and without a prefix
     g
 }
 fn c09_nontrivial(c: &ProgCase) -> bool {
@@ -601,6 +602,39 @@ fn depth_class(t: &Ty, pred: &dyn Fn(&Ty) -> bool) -> Option<usize> {
     best
 }
 
+/// names of the helper universe (typing / pydantic / enum / datetime / TypeVars) a Python module uses in class bodies,
+/// module-level assignments or function signatures and bodies without importing or defining them: (name, position)
+pub fn python_missing_helpers(raw: &serde_json::Value, f: &OFile, generic_names: &[&String]) -> Vec<(String, String)> {
+    let mut defined: Vec<String> = f.helper_defs.clone();
+    for i in &f.imports {
+        defined.extend(i.names.iter().cloned());
+    }
+    let mut used: Vec<(String, String)> = vec![];
+    for c in raw["classes"].as_array().into_iter().flatten() {
+        for n in c["used_names"].as_array().into_iter().flatten().chain(c["base_names"].as_array().into_iter().flatten()) {
+            used.push((n.as_str().unwrap_or("").to_string(), "class".into()));
+        }
+    }
+    for a in raw["assigns"].as_array().into_iter().flatten() {
+        for n in a["used_names"].as_array().into_iter().flatten() {
+            used.push((n.as_str().unwrap_or("").to_string(), "assign".into()));
+        }
+    }
+    for fun in raw["funcs"].as_array().into_iter().flatten() {
+        for n in fun["used_names"].as_array().into_iter().flatten() {
+            used.push((n.as_str().unwrap_or("").to_string(), "function".into()));
+        }
+    }
+    let mut out: Vec<(String, String)> = vec![];
+    for (n, pos) in used {
+        let in_universe = PY_HELPER_UNIVERSE.contains(&n.as_str()) || generic_names.iter().any(|g| **g == n);
+        if in_universe && !defined.contains(&n) && !out.iter().any(|(m, _)| *m == n) {
+            out.push((n, pos));
+        }
+    }
+    out
+}
+
 fn c12_oracle(ctx: &Ctx) -> Vec<Violation> {
     let mut out = vec![];
     let f = ctx.file();
@@ -719,30 +753,12 @@ fn c12_oracle(ctx: &Ctx) -> Vec<Violation> {
         Lang::Python => {
             if let Some(py) = &ctx.obs.py {
                 let raw = &py.raw;
-                let mut defined: Vec<String> = f.helper_defs.clone();
-                for i in &f.imports {
-                    defined.extend(i.names.iter().cloned());
-                }
-                let mut used: Vec<(String, String)> = vec![];
-                for c in raw["classes"].as_array().into_iter().flatten() {
-                    for n in c["used_names"].as_array().into_iter().flatten().chain(c["base_names"].as_array().into_iter().flatten()) {
-                        used.push((n.as_str().unwrap_or("").to_string(), "class".into()));
-                    }
-                }
-                for a in raw["assigns"].as_array().into_iter().flatten() {
-                    for n in a["used_names"].as_array().into_iter().flatten() {
-                        used.push((n.as_str().unwrap_or("").to_string(), "assign".into()));
-                    }
-                }
                 let generic_names: Vec<&String> = ctx.items.iter().flat_map(|i| i.generics.iter()).collect();
                 let mut reported: Vec<String> = vec![];
-                for (n, pos) in used {
-                    let in_universe = PY_HELPER_UNIVERSE.contains(&n.as_str()) || generic_names.iter().any(|g| **g == n);
-                    if in_universe && !defined.contains(&n) && !reported.contains(&n) {
-                        reported.push(n.clone());
-                        let class = if generic_names.iter().any(|g| **g == n) { "TypeVar".to_string() } else { n.clone() };
-                        out.push(Violation::new(format!("python/name-not-imported-or-defined/{class}/{pos}"), format!("python: `{n}` is used ({pos}) but neither imported nor defined in the module")));
-                    }
+                for (n, pos) in python_missing_helpers(raw, f, &generic_names) {
+                    reported.push(n.clone());
+                    let class = if generic_names.iter().any(|g| **g == n) { "TypeVar".to_string() } else { n.clone() };
+                    out.push(Violation::new(format!("python/name-not-imported-or-defined/{class}/{pos}"), format!("python: `{n}` is used ({pos}) but neither imported nor defined in the module")));
                 }
                 if let Some((ty, msg, _line, name)) = &py.exec_error {
                     if ty == "NameError" {
